@@ -513,6 +513,8 @@ struct Drive {
     ks: Vec<u64>,
     ki: usize,
     err: Option<(i32, bool)>,
+    /// Do not copy the bytes the kernel accepted out of the caller's buffers (gigabyte transfers).
+    skip_gather: bool,
     /// Memory of the caller's buffers: (address, extent).
     bases: Vec<(usize, usize)>,
     zsel: bool,
@@ -562,7 +564,7 @@ fn is_data_op(op: u8) -> bool {
 
 impl Drive {
     fn new(rfd: i32, read: bool, ks: Vec<u64>, err: Option<(i32, bool)>, bases: Vec<(usize, usize)>, zsel: bool) -> Drive {
-        Drive { rfd, read, ks, ki: 0, err, bases, zsel, delivered: 0, lines: Vec::new(), recs: Vec::new(), anomalies: Vec::new() }
+        Drive { rfd, read, ks, ki: 0, err, skip_gather: false, bases, zsel, delivered: 0, lines: Vec::new(), recs: Vec::new(), anomalies: Vec::new() }
     }
 
     fn decode(&mut self, sqe: &Sqe) -> Rec {
@@ -679,6 +681,9 @@ impl Drive {
             let res = k.min(offered).min(i32::MAX as u64) as u32;
             let zc = matches!(sqe.opcode, simk::OP_SEND_ZC | simk::OP_SENDMSG_ZC);
             let mut spec = PostSpec::new(Target::UserData(sqe.user_data), res as i32, if zc { simk::CQE_F_MORE } else { 0 });
+            if !self.read && self.skip_gather {
+                spec.data = Some(Vec::new());
+            }
             if self.read {
                 let bytes: Vec<u8> = (0..res as usize).map(|i| sbyte(self.delivered + i)).collect();
                 if !(rec.sel && res == 0 && !self.zsel) {
@@ -1166,6 +1171,82 @@ impl CompositeCase {
         }
         self.feats.push(format!("fut:{fut}"));
         self.feats.push("huge-buffer(>=4GiB)".into());
+        self.nontrivial = true;
+        unsafe { libc::munmap(p, total) };
+        Some(lines)
+    }
+
+    /// `composite wbig fut=… n=<2..4> size=<bytes> ks=…`: a vectored writing future over `n` static
+    /// slices of `size` bytes each (untouched memory); the total may exceed 4 GiB.
+    fn run_wbig(&mut self, toks: &[&str]) -> Option<Vec<String>> {
+        let fut = kvs(toks, "fut")?.to_string();
+        let n = num(kvs(toks, "n")?)? as usize;
+        let size = num(kvs(toks, "size")?)? as usize;
+        let ks = num_list(kvs(toks, "ks")?)?;
+        if !(2..=4).contains(&n) || size == 0 || size >= (1 << 31) || !matches!(fut.as_str(), "write_all_vectored" | "send_all_vectored") {
+            return None;
+        }
+        let total = n * size;
+        let p = unsafe { libc::mmap(std::ptr::null_mut(), total, libc::PROT_READ | libc::PROT_WRITE, libc::MAP_PRIVATE | libc::MAP_ANONYMOUS | libc::MAP_NORESERVE, -1, 0) };
+        if p == libc::MAP_FAILED {
+            return Some(vec!["skip mmap".into()]);
+        }
+        let slices: Vec<&'static [u8]> = (0..n).map(|i| unsafe { std::slice::from_raw_parts(p.cast::<u8>().add(i * size), size) }).collect();
+        let bases: Vec<(usize, usize)> = (0..n).map(|i| (p as usize + i * size, size)).collect();
+        let mut ring = self.ring.take().unwrap();
+        let fd = self.fd.take().unwrap();
+        let mut d = Drive::new(self.rfd, false, ks, None, bases, false);
+        d.skip_gather = true;
+        let out = {
+            let write = fut == "write_all_vectored";
+            let mut f: Pin<Box<dyn Future<Output = io::Result<()>> + '_>> = match (n, write) {
+                (2, true) => Box::pin(fd.write_all_vectored([slices[0], slices[1]])),
+                (3, true) => Box::pin(fd.write_all_vectored([slices[0], slices[1], slices[2]])),
+                (_, true) => Box::pin(fd.write_all_vectored([slices[0], slices[1], slices[2], slices[3]])),
+                (2, false) => Box::pin(fd.send_all_vectored([slices[0], slices[1]])),
+                (3, false) => Box::pin(fd.send_all_vectored([slices[0], slices[1], slices[2]])),
+                (_, false) => Box::pin(fd.send_all_vectored([slices[0], slices[1], slices[2], slices[3]])),
+            };
+            let out = d.run(&mut ring, f.as_mut());
+            drop(f);
+            out
+        };
+        if matches!(out, Outcome::Pending) {
+            settle(&mut ring, self.rfd);
+        }
+        self.ring = Some(ring);
+        self.fd = Some(fd);
+        let mut lines = std::mem::take(&mut d.lines);
+        let result = match &out {
+            Outcome::Ready(Ok(())) => "ok".to_string(),
+            Outcome::Ready(Err(e)) => format!("err={}", err_name(e)),
+            Outcome::Pending => "pending".to_string(),
+            Outcome::Panic(_) => "panic".to_string(),
+        };
+        lines.push(format!("result {result}"));
+        let handed: usize = d.recs.iter().filter_map(|r| r.res).map(|r| r as usize).sum();
+        lines.push(format!("input={total} handed={handed}"));
+        // oracle: continuation requests offer exactly what is left; Ok only after everything
+        let mut acc = 0usize;
+        for (i, r) in d.recs.iter().enumerate() {
+            let offered: usize = r.iov.iter().map(|v| v.0).sum();
+            if offered != total - acc {
+                self.fail(&fut, "offered-continuation", format!("request {i} offers {offered} bytes, {} remain (buffers of {size} bytes, {total} in total)", total - acc));
+                break;
+            }
+            acc += r.res.unwrap_or(0) as usize;
+        }
+        if result == "ok" && handed != total {
+            self.fail(&fut, "ok-before-all-bytes", format!("Ok after {handed} of {total} bytes were accepted"));
+        }
+        if let Outcome::Panic(m) = &out {
+            self.fail(&fut, "panic", format!("panicked: {m}"));
+        }
+        for a in d.anomalies.drain(..) {
+            self.fail(&fut, "anomaly", a);
+        }
+        self.feats.push(format!("fut:{fut}"));
+        self.feats.push(if total >= (1 << 32) { "total>=4GiB".into() } else { "big-buffers".into() });
         self.nontrivial = true;
         unsafe { libc::munmap(p, total) };
         Some(lines)
@@ -1842,6 +1923,32 @@ fn gen_whuge(rng: &mut Rng) -> String {
     format!("composite whuge fut={fut} extra={k} tail={t} ks={}", fmt_list(&ks))
 }
 
+/// A vectored writing future whose buffers total more than 4 GiB (each below 2 GiB), answered with
+/// gigabyte-sized short transfers so that the continuation state crosses 2^32.
+fn gen_wbig(rng: &mut Rng) -> String {
+    let fut = *rng.pick(&["write_all_vectored", "send_all_vectored"]);
+    let n = rng.range(3, 4);
+    let size: u64 = *rng.pick(&[1_500_000_000u64, (1 << 31) - 1, 1_200_000_001]);
+    let total = n * size;
+    let mut ks = Vec::new();
+    let mut left = total;
+    while left > 0 && ks.len() < 12 {
+        let k = match rng.below(3) {
+            0 => left.min(i32::MAX as u64),
+            1 => rng.range(1, left.min(1 << 30)),
+            _ => left.min(size - rng.below(3)),
+        };
+        ks.push(k);
+        left -= k.min(left).min(i32::MAX as u64);
+    }
+    if left > 0 {
+        ks.push(u32::MAX as u64);
+        ks.push(u32::MAX as u64);
+        ks.push(u32::MAX as u64);
+    }
+    format!("composite wbig fut={fut} n={n} size={size} ks={}", fmt_list(&ks))
+}
+
 fn gen_bad(rng: &mut Rng) -> String {
     let good = if rng.chance(1, 2) { gen_w(rng) } else { gen_r(rng) };
     let toks: Vec<&str> = good.split(' ').collect();
@@ -1873,17 +1980,25 @@ impl Case for CompositeCase {
             return None;
         }
         self.left -= 1;
-        Some(match rng.weighted(&[32, 32, 2, 1]) {
+        Some(match rng.weighted(&[64, 64, 4, 2, 1]) {
             0 => gen_w(rng),
             1 => gen_r(rng),
             2 => gen_bad(rng),
-            _ => gen_whuge(rng),
+            3 => gen_whuge(rng),
+            _ => gen_wbig(rng),
         })
     }
 
     fn exec(&mut self, op: &str) -> Vec<String> {
         let toks: Vec<&str> = op.split(' ').collect();
         match toks.as_slice() {
+            ["composite", "wbig", rest @ ..] => match self.run_wbig(rest) {
+                Some(l) => l,
+                None => {
+                    self.feats.push("bad-op".into());
+                    vec!["bad-op".into()]
+                }
+            },
             ["composite", "whuge", rest @ ..] => match self.run_whuge(rest) {
                 Some(l) => l,
                 None => {
